@@ -476,18 +476,32 @@ impl SessionManager {
         self.check_invariants();
     }
 
-    /// Wipe every per-(cluster, source-IP) accounting bucket. Called by
-    /// the runtime `SetMaxConnectionsPerIp(0)` path so disabling the
-    /// feature does not leave dead bookkeeping behind that a future
-    /// re-enable would consult.
-    pub fn clear_cluster_ip_tracking(&mut self) {
-        self.cluster_ip_tracks.clear();
-        self.connections_per_cluster_ip.clear();
-        // Both halves of the per-(cluster, ip) accounting are now empty; a
-        // future re-enable starts from a clean slate.
+    /// Wipe the per-(cluster, source-IP) accounting buckets of the clusters
+    /// for which `has_own_limit` is false. Called by the runtime
+    /// `SetMaxConnectionsPerIp(0)` path so disabling the global default
+    /// does not leave dead bookkeeping behind that a future re-enable would
+    /// consult. A cluster that carries its own `max_connections_per_ip` is
+    /// not governed by the global default: its limit stays in force, so the
+    /// connections already counted against it must stay counted.
+    pub fn clear_cluster_ip_tracking(&mut self, has_own_limit: impl Fn(&str) -> bool) {
+        self.cluster_ip_tracks.retain(|_, by_cluster| {
+            by_cluster.retain(|cluster_id, _| has_own_limit(cluster_id));
+            !by_cluster.is_empty()
+        });
+        self.connections_per_cluster_ip
+            .retain(|cluster_id, _| has_own_limit(cluster_id));
+        // Both halves of the per-(cluster, ip) accounting only retain
+        // clusters with their own limit; a future re-enable of the global
+        // default starts from a clean slate for every other cluster.
         debug_assert!(
-            self.cluster_ip_tracks.is_empty() && self.connections_per_cluster_ip.is_empty(),
-            "clear must wipe both the reverse index and the forward count map"
+            self.cluster_ip_tracks
+                .values()
+                .all(|by_cluster| by_cluster.keys().all(|id| has_own_limit(id)))
+                && self
+                    .connections_per_cluster_ip
+                    .keys()
+                    .all(|id| has_own_limit(id)),
+            "clear must only keep the accounting of clusters that carry their own limit"
         );
         #[cfg(debug_assertions)]
         self.check_invariants();
@@ -2002,7 +2016,12 @@ impl Server {
                 // bookkeeping so a re-enable starts from a clean slate
                 // and `cluster_ip_at_limit` does not consult dead state.
                 if *limit == 0 {
-                    sessions.clear_cluster_ip_tracking();
+                    let clusters = &self.config_state.clusters;
+                    sessions.clear_cluster_ip_tracking(|cluster_id| {
+                        clusters
+                            .get(cluster_id)
+                            .is_some_and(|cluster| cluster.max_connections_per_ip.is_some())
+                    });
                 }
                 info!(
                     "{} updated global max_connections_per_ip from {} to {}",
